@@ -5,6 +5,10 @@ from . import fakesock, reftarget
 from .monitors import BudgetExceeded
 
 
+class ScenarioDead(Exception):
+    """raised by Bench.call once a public call blew its step budget: the scenario cannot continue"""
+
+
 class Bench:
     def __init__(self, rng, host="192.168.1.236", port=44818):
         self.rng = rng
@@ -14,6 +18,7 @@ class Bench:
         self.target = None
         self.calls = []      # client-boundary history: (step, 'call'|'ret'|'exc', op, detail)
         self.step = 0
+        self.dead = False
         self._patch_urandom()
 
     def _patch_urandom(self):
@@ -42,13 +47,18 @@ class Bench:
 
     def call(self, op, fn, *a, **kw):
         """client-boundary recording: call event before invoking, return/exception event after"""
+        if self.dead:
+            raise ScenarioDead()
         self.step += 1
         self.calls.append((self.step, "call", op))
+        self.net.call_ops = 0
         try:
             out = fn(*a, **kw)
-        except BudgetExceeded:
+        except BudgetExceeded as e:
+            # the call did not finish within its logical step budget: the driver is unusable from here on
             self.calls.append((self.step, "budget", op))
-            raise
+            self.dead = True
+            return ("budget", e)
         except Exception as e:  # noqa
             self.calls.append((self.step, "exc", op, type(e).__name__))
             return ("exc", e)
